@@ -1107,7 +1107,9 @@ static void gen_relay(uint64_t seed, const std::string &prop, Plan &plan) {
     plan.p["ctl"] = 0;
     // the relay's limit of simultaneous relayed connections, small enough to be reached: a further client is served once a slot is free
     plan.p["max_relays"] = r.chance(0.3) ? (int64_t)r.range(1, 3) : 10000;
-    if (plan.S("tp") == "btls" || plan.S("tp2") == "btls") plan.p["eintr_pm"] = 0;   // (an interrupted blocking send on an endpoint's own btls leg only re-finds KF-C02-1c)
+    // refusals below OpenSSL on an endpoint's own btls leg (ambient EAGAIN / short writes on send, interrupted blocking sends) only
+    // re-find the endpoints' KF-C02-1 family, in forms the end-to-end bookkeeping cannot attribute (the hello precedes the pairing)
+    if (plan.S("tp") == "btls" || plan.S("tp2") == "btls") { plan.p["eintr_pm"] = 0; plan.p["eagain_send_pm"] = 0; plan.p["short_write_pm"] = 0; }
     plan.p["retry_policy"] = 0;   // endpoints retry a refused byte-stream send with the same bytes (the other policies only re-find KF-C02-1 on their own btls leg)
     // the settle-point inspection presumes a direct connection (kernel idleness of one connection): not here
     std::vector<Op> ops;
